@@ -399,6 +399,13 @@ def _kani_phase(d, feats, harnesses, jobs, res, known=()):
                 if real and rec['checks_failed'] > 0:
                     rec['status'] = 'failed'
                     res['failures'].append(rec)
+                elif h['kind'] == 'Kb':
+                    # a bounded stand-in is never counted as proved; when it gives no answer (time / memory limit)
+                    # the run loses that supporting evidence and says so - it does not make the property undecided
+                    rec['status'] = 'no-answer'
+                    res.setdefault('bounded_notes', []).append('harness %s: %s (no failed property; time or memory limit)' % (
+                        h['name'], et.get('error_type') or 'unknown'))
+                    rec['output'] = blk[-1500:]
                 else:
                     rec['status'] = 'undecided'
                     undecided.append('harness %s: %s (no failed property; timeout/oom/unwinding?)' % (
